@@ -61,7 +61,19 @@ type aval struct {
 // evalHelper runs the helper's SSA for "the prefix matched, the remainder is non-empty and starts
 // with byte c" and returns the boolean it returns, or ok=false when something is not understood.
 func evalHelper(fn *ssa.Function, c byte) (result bool, ok bool, why string) {
+	return evalHelperArgs(fn, c, nil, 0)
+}
+
+func evalHelperArgs(fn *ssa.Function, c byte, args []aval, depth int) (result bool, ok bool, why string) {
+	if depth > 4 || len(fn.Blocks) == 0 {
+		return false, false, "helper nesting too deep"
+	}
 	vals := map[ssa.Value]aval{}
+	for i, prm := range fn.Params {
+		if i < len(args) {
+			vals[prm] = args[i]
+		}
+	}
 	get := func(v ssa.Value) aval {
 		if cv, isC := v.(*ssa.Const); isC {
 			if cv.Value == nil {
@@ -116,6 +128,17 @@ func evalHelper(fn *ssa.Function, c byte) (result bool, ok bool, why string) {
 						} else {
 							vals[x] = aval{kind: "unknown"}
 						}
+					} else if cal := x.Common().StaticCallee(); cal != nil && load.InRepo(cal) && len(cal.Blocks) > 0 && cal.Signature.Results().Len() == 1 {
+						// a repository helper deciding on the next character (e.g. isNameCharacter(rest[0]))
+						var as []aval
+						for _, a := range x.Common().Args {
+							as = append(as, get(a))
+						}
+						res, ok, why := evalHelperArgs(cal, c, as, depth+1)
+						if !ok {
+							return false, false, why
+						}
+						vals[x] = aval{kind: "bool", b: res}
 					} else {
 						vals[x] = aval{kind: "unknown"}
 						return false, false, "call of " + name + " (" + x.String() + ") is not understood"
@@ -228,39 +251,62 @@ func Finders(p *load.Prog, r *oblig.Report, rule string, lg *g4.Grammar) {
 			r.Unknown(rule, construct, "-", "finder not found")
 			continue
 		}
-		// the predicate closure handed to slices.IndexFunc
-		var pred *ssa.Function
-		for _, an := range fn.AnonFuncs {
-			pred = an
-		}
-		if pred == nil {
-			r.Unknown(rule, construct, p.Pos(fn.Pos()), "the finder has no predicate closure")
-			continue
-		}
-		// what does the predicate return?
+		// the function that decides whether a line declares the name: among the functions the finder reaches
+		// (closures and helpers of its package), the one that tests the line against the prefix
 		var helper *ssa.Function
 		direct := ""
-		for _, b := range pred.Blocks {
-			for _, in := range b.Instrs {
-				if ret, ok := in.(*ssa.Return); ok && len(ret.Results) == 1 {
-					if call, ok := ret.Results[0].(*ssa.Call); ok {
-						if cal := call.Common().StaticCallee(); cal != nil {
-							if load.IsRepoPkg(load.FuncPkg(cal)) {
-								helper = cal
-							} else if cal.Pkg != nil {
-								direct = cal.Pkg.Pkg.Path() + "." + cal.Name()
+		seen := map[*ssa.Function]bool{}
+		var visit func(f *ssa.Function, depth int)
+		visit = func(f *ssa.Function, depth int) {
+			if f == nil || seen[f] || depth > 4 || len(f.Blocks) == 0 {
+				return
+			}
+			seen[f] = true
+			for _, an := range f.AnonFuncs {
+				visit(an, depth+1)
+			}
+			usesPrefix := false
+			for _, b := range f.Blocks {
+				for _, in := range b.Instrs {
+					call, ok := in.(*ssa.Call)
+					if !ok {
+						continue
+					}
+					cal := call.Common().StaticCallee()
+					if cal == nil {
+						continue
+					}
+					if cal.Pkg != nil && cal.Pkg.Pkg.Path() == "strings" {
+						switch cal.Name() {
+						case "CutPrefix", "TrimPrefix":
+							usesPrefix = true
+						case "HasPrefix":
+							usesPrefix = true
+							// returned as is?
+							if refs := call.Referrers(); refs != nil {
+								for _, ref := range *refs {
+									if _, isRet := ref.(*ssa.Return); isRet {
+										direct = "strings.HasPrefix"
+									}
+								}
 							}
 						}
+					} else if load.InRepo(cal) {
+						visit(cal, depth+1)
 					}
 				}
 			}
+			if usesPrefix && f.Signature.Results().Len() == 1 && helper == nil {
+				helper = f
+			}
 		}
+		visit(fn, 0)
 		switch {
 		case direct == "strings.HasPrefix":
-			r.Bad(rule, construct, p.Pos(pred.Pos()), "the finder accepts a line by strings.HasPrefix(line, keyword+name) alone: a declaration of a longer name with the same prefix (e.g. 'username' for 'user') that stands earlier is returned instead")
+			r.Bad(rule, construct, p.Pos(fn.Pos()), "the finder accepts a line by strings.HasPrefix(line, keyword+name) alone: a declaration of a longer name with the same prefix (e.g. 'username' for 'user') that stands earlier is returned instead")
 			continue
 		case helper == nil:
-			r.Unknown(rule, construct, p.Pos(pred.Pos()), "the predicate's result is not understood ("+direct+")")
+			r.Unknown(rule, construct, p.Pos(fn.Pos()), "no function that tests a line against keyword+name was found in what the finder reaches")
 			continue
 		}
 		var mistaken []string
